@@ -125,6 +125,16 @@ class AH:
             a = rng.choice(hs)
             form = rng.choice(['b', 'r', 'n'])
             keys = rng.sample(range(n), rng.randint(1, n))
+            if rng.random() < 0.2:
+                # nothing to substitute: dd returns the very same Function object
+                keys = []
+                form = rng.choice(['b', 'r', 'n'])
+                h0 = s.op(A, {'b': 'let_bool', 'r': 'let_ref', 'n': 'let_name'}[form], {}, a)
+                if h0 != a:
+                    self.ctx.violation('C08:let-empty', f'let({{}}, u) returned handle {h0}, not u itself ({a})', self.case())
+                    self.ok = False
+                self.observe()
+                return
             if form == 'b':
                 d = {j: rng.random() < 0.5 for j in keys}
                 self.reg(s.op(A, 'let_bool', d, a), T.cofactor(self.live[a], n, d), 'let const')
